@@ -60,6 +60,11 @@ def build_replay():
     env = dict(os.environ, CARGO_NET_OFFLINE='true', RUSTFLAGS='--cfg anweiss_cddl_verif --cap-lints allow',
                CARGO_TARGET_DIR=tdir, CARGO_INCREMENTAL='0')
     r = sh(['cargo', 'build', '--offline', '--quiet'], cwd=crate, env=env)
+    if r.returncode != 0 and 'error[E' not in r.stderr:
+        # not a compile error of the crate under test (linker hiccup, half-written artefact of an interrupted
+        # run): rebuild this package from scratch once
+        sh(['cargo', 'clean', '--offline', '-p', 'verif_replay'], cwd=crate, env=env)
+        r = sh(['cargo', 'build', '--offline', '--quiet'], cwd=crate, env=env)
     if r.returncode != 0:
         raise Undecided('replay-build-failed', r.stderr[-3000:])
     _REPLAY_EXE.append(os.path.join(tdir, 'debug', 'verif_replay'))
